@@ -32,6 +32,7 @@ type vSource struct {
 	scope    int
 	inCache  bool
 	inAPI    bool
+	apiFails bool // the uncached fallback read of a source that exists fails with an error other than NotFound
 }
 
 func vCondition(obj map[string]interface{}, typ string) (status, reason string, found bool) {
@@ -112,6 +113,10 @@ func VerifC18Template() {
 		}
 		if s.inAPI {
 			uncached.Put(so)
+			s.apiFails = verifrt.Bool(p + ".apiReadFails")
+			if s.apiFails {
+				uncached.GetErr[verifk8s.Key{Kind: kind, Namespace: effNS, Name: p}] = verifk8s.ErrOpaque
+			}
 		}
 		srcs[k] = s
 	}
@@ -204,12 +209,17 @@ func VerifC18Template() {
 	outside := false
 	requiredMissing := false
 	optionalMissing := false
+	readFailed := false
 	for _, s := range srcs {
-		if outside || requiredMissing {
+		if outside || requiredMissing || readFailed {
 			break // the pass stops at the first offending source
 		}
 		if s.ns == "other" || s.scope == verifk8s.ScopeCluster {
 			outside = true
+			continue
+		}
+		if s.apiFails {
+			readFailed = true
 			continue
 		}
 		if !s.inCache && !s.inAPI {
@@ -219,6 +229,13 @@ func VerifC18Template() {
 				requiredMissing = true
 			}
 		}
+	}
+	if readFailed {
+		// a source that could not be read is not a missing source, optional or not: its values are unknown, so the
+		// target is not rendered without them; the pass fails and is retried
+		verifrt.Assert(err != nil && len(targetWrites) == 0, "C18/unreadable-source-fails-the-pass-and-writes-nothing")
+		verifrt.Reach("source-read-error")
+		return
 	}
 	sourcesOK := !outside && !requiredMissing
 	targetOutside := tNS == "other" || tScope == verifk8s.ScopeCluster
